@@ -6,6 +6,8 @@ from .C18 import writer_roles
 import itertools
 
 REQUIRES = ['attachment']
+USES_QUERIES = True
+USES_KNOWN_VALUES = True
 EXPLANATION = (
     "CODEC/GUARD/TABLE rules. C19.1: writer Assertion::new_attachment = assertion('attachment', wrap(payload) ['vendor': v, 'conformsTo'?: c]) "
     "- the payload is always wrapped, exactly once, whatever its shape - and the readers unwrap_envelope(object), 'vendor' (required) and "
@@ -15,9 +17,9 @@ EXPLANATION = (
     "valuations of (vendor given, vendor equal, conformsTo given, stored conformsTo present, conformsTo equal) keeps exactly when "
     "(!vg | ve) & (!cg | (cp & ce)). C19.5: the single-result form over len in {0,1,2} gives {Nonexistent, first, Ambiguous}. C19.6: "
     "add_type = add_assertion('isA', t); types = objects_for_predicate('isA'); has_type = any(digest(x) == digest(envelope(t))); "
-    "check_type Ok iff has_type. C19.9: the Attachments container - add stores new_attachment(..) under its digest, add_to_envelope is the fold of add_assertion_envelope over every stored attachment onto the accumulated envelope, try_from_envelope stores every attachment of the envelope. Does not decide string/ARID value round-trips.")
+    "check_type Ok iff has_type. C19.9: the Attachments container - add stores new_attachment(..) under its digest, add_to_envelope is the fold of add_assertion_envelope over every stored attachment onto the accumulated envelope, try_from_envelope stores every attachment of the envelope. C19.10: attachments() = attachments_with_vendor_and_conforms_to(self, None, None). Does not decide string/ARID value round-trips.")
 TRUSTED = ['String PartialEq compares text']
-FLOORS = {'C19.1': 4, 'C19.2': 1, 'C19.3': 1, 'C19.4': 1, 'C19.5': 1, 'C19.6': 4, 'C19.9': 3}
+FLOORS = {'C19.1': 4, 'C19.2': 1, 'C19.3': 1, 'C19.4': 1, 'C19.5': 1, 'C19.6': 4, 'C19.9': 3, 'C19.10': 1}
 P1, P2, P3 = ('param', 1), ('param', 2), ('param', 3)
 
 
@@ -309,6 +311,36 @@ def check(ctx):
     from .. import errflow
     errflow.check(ctx, 'C19.8', ['src/extension/attachment/attachment_impl.rs', 'src/extension/attachment/attachments.rs', 'src/extension/types.rs'], 'attachment / type family')
     check_container(ctx)
+    check_unfiltered(ctx)
+
+
+def check_unfiltered(ctx):
+    """C19.10: the unfiltered query attachments() is the filtered one with no filter, attachments_with_vendor_and_conforms_to(self, None,
+    None) - the function whose every-attachment validation and selection table are judged above (a shortcut that returns the
+    'attachment' assertions directly skips the validation: malformed attachments are no longer reported)."""
+    F = ctx.F
+    P1 = ('param', 1)
+    b = F.method1('Envelope', 'attachments')
+    full = F.method1('Envelope', 'attachments_with_vendor_and_conforms_to')
+    if b is None or full is None:
+        ctx.lost('C19.10', 'Envelope::attachments / attachments_with_vendor_and_conforms_to')
+        return
+    tb = TermBuilder(F, b)
+    for bi, si, t in ret_defs(tb):
+        v = strip_sites(detry(t))
+        if m_call(t, name='from_residual') is not None:
+            continue
+        if v[0] == 'agg' and v[2] == 'Ok' and v[3]:
+            v = strip_sites(detry(v[3][0]))
+        c = callee_of(v) if v[0] == 'call' else None
+        def none(x):
+            x = strip_sites(x)
+            return x[0] == 'agg' and x[2] == 'None'
+        if c is not None and c.best_hash == full.hash and len(v[2]) == 3 and strip_sites(v[2][0]) == P1 and none(v[2][1]) and none(v[2][2]):
+            ctx.ok('C19.10', ctx.site(b, bi, si), 'attachments() = attachments_with_vendor_and_conforms_to(self, None, None)')
+        else:
+            ctx.fail('C19.10', ctx.site(b, bi, si), 'attachments() returns %s, not the validating query with no filter: malformed attachment assertions are not reported' % fmt(v)[:200],
+                     key='C19.10|attachments')
 
 
 def check_container(ctx):
